@@ -267,12 +267,15 @@ class StructMachine(Machine):
         if isinstance(base, (StrZ, str)) and idx["k"] == "range":
             st = self.eval(idx["start"], fr, guard) if idx.get("start") is not None else 0
             s = to_strz(base)
+            mk = LineZ if isinstance(base, LineZ) or (isinstance(base, str) and "\n" not in base) else StrZ
+            if isinstance(base, TextV):
+                mk = StrZ
             if idx.get("end") is not None:
                 en = self.eval(idx["end"], fr, guard)
                 if idx.get("closed"):
                     en = en + 1
-                return StrZ(z3.SubString(s, st, en - st))
-            return StrZ(z3.SubString(s, st, z3.Length(s) - st))
+                return mk(z3.SubString(s, st, en - st))
+            return mk(z3.SubString(s, st, z3.Length(s) - st))
         if isinstance(base, VecV):
             i = self.eval(idx, fr, guard)
             return self.vec_index(base, i)
@@ -359,6 +362,9 @@ class StructMachine(Machine):
                     continue
                 if spec != "":
                     return None
+                if isinstance(v, (TextV, LineZ)):
+                    pieces.append(v)
+                    continue
                 try:
                     pieces.append(to_strz(v))
                 except Unsupported:
@@ -368,6 +374,11 @@ class StructMachine(Machine):
                     pieces.append(z3.StringVal(p))
         if not pieces:
             return ""
+        if any(isinstance(p, (TextV, LineZ)) for p in pieces):
+            acc = pieces[0] if not z3.is_expr(pieces[0]) else (structsym_lit(pieces[0]))
+            for p in pieces[1:]:
+                acc = text_concat(acc, p if not z3.is_expr(p) else structsym_lit(p))
+            return acc
         return StrZ(z3.Concat(*pieces) if len(pieces) > 1 else pieces[0])
 
     def chrono_format(self, v, fmt):
@@ -405,6 +416,121 @@ class StructMachine(Machine):
 
     # -- methods on the new values -------------------------------------------------------------------
     def builtin_method(self, recv, meth, args, e, fr, guard):
+        if isinstance(recv, TextV) and meth == "lines":
+            return VecV(recv.line_items())
+        if isinstance(recv, LineZ) and meth == "lines":
+            return VecV(((z3.Length(recv.s) > 0, recv),))
+        if isinstance(recv, LineZ) and meth == "split" and args and args[0] == "\n":
+            return VecV(((True, recv),))
+        if isinstance(recv, (StrZ,)) and meth == "is_ascii":
+            return z3.InRe(recv.s, z3.Star(z3.Range("\x00", "\x7f")))
+        if isinstance(recv, VecV) and meth == "skip" and args and is_intterm(args[0]):
+            out, rank = [], 0
+            for g, v in recv.items:
+                out.append((And(g, rank >= args[0]), v))
+                rank = rank + (If(g, 1, 0) if is_sym(g) else (1 if g else 0))
+            return VecV(tuple(out))
+        if isinstance(recv, TextV) and meth == "split" and args and args[0] == "\n":
+            items = list(recv.line_items())
+            # "".split('\n') yields one empty piece
+            items[0] = (True, items[0][1])
+            return VecV(tuple(items))
+        if isinstance(recv, (StrZ, str)) and meth in ("chars", "bytes"):
+            return CharsV(to_strz(recv))
+        if isinstance(recv, CharsV):
+            sz = recv.s
+            if meth in ("all", "any") and args and isinstance(args[0], Closure):
+                cl = args[0]
+                pname = cl.params[0]
+                while pname["k"] in ("pref", "ptype"):
+                    pname = pname["pat"]
+                cls = char_class(self, cl.body, pname.get("name"), cl.frame) if pname["k"] == "pident" else None
+                if cls is None:
+                    raise Unsupported("character predicate closure (line %s)" % e.get("line"))
+                rest = z3.SubString(sz, recv.start, z3.Length(sz) - recv.start) if not (isinstance(recv.start, int) and recv.start == 0) else sz
+                if meth == "all":
+                    return z3.InRe(rest, z3.Star(cls))
+                anyc = z3.Full(z3.ReSort(z3.StringSort()))
+                return z3.InRe(rest, z3.Concat(anyc, cls, anyc))
+            if meth == "nth" and args:
+                k = args[0]
+                pos = recv.start + k
+                return Opt(z3.Length(sz) > pos, StrZ(z3.SubString(sz, pos, 1)))
+            if meth == "next":
+                pos = recv.start
+                # advancing iterator: rebinding
+                self.assign(e["recv"], CharsV(sz, recv.start + 1), fr, guard)
+                return Opt(z3.Length(sz) > pos, StrZ(z3.SubString(sz, pos, 1)))
+            if meth == "count":
+                return z3.Length(sz) - recv.start
+            if meth in ("last",):
+                n = z3.Length(sz)
+                return Opt(n > recv.start, StrZ(z3.SubString(sz, n - 1, 1)))
+            if meth == "skip" and args:
+                return CharsV(sz, recv.start + args[0])
+            if meth in ("rev", "enumerate", "peekable"):
+                raise Unsupported("character iterator adaptor .%s" % meth)
+            if meth in ("take_while", "skip_while") and args and isinstance(args[0], Closure):
+                cl = args[0]
+                pname = cl.params[0]
+                while pname["k"] in ("pref", "ptype"):
+                    pname = pname["pat"]
+                cls = char_class(self, cl.body, pname.get("name"), cl.frame) if pname["k"] == "pident" else None
+                if cls is None:
+                    raise Unsupported("character predicate closure (line %s)" % e.get("line"))
+                # longest prefix of class characters: fresh split  rest = pre ++ post
+                self.counter += 1
+                pre, post = z3.String("tw_pre#%d" % self.counter), z3.String("tw_post#%d" % self.counter)
+                rest = z3.SubString(sz, recv.start, z3.Length(sz) - recv.start)
+                notcls = z3.Intersect(z3.Complement(cls), z3.AllChar(z3.ReSort(z3.StringSort())))
+                self.constraints += [rest == z3.Concat(pre, post), z3.InRe(pre, z3.Star(cls)),
+                                     z3.Or(z3.Length(post) == 0, z3.InRe(z3.SubString(post, 0, 1), notcls))]
+                return StrZ(pre) if meth == "take_while" else CharsV(post)
+            if meth == "collect":
+                return StrZ(z3.SubString(sz, recv.start, z3.Length(sz) - recv.start)) if not (isinstance(recv.start, int) and recv.start == 0) else StrZ(sz)
+        if isinstance(recv, StrZ) and meth in ("is_ascii_digit", "is_ascii_uppercase", "is_ascii_lowercase", "is_ascii_alphabetic",
+                                               "is_ascii_alphanumeric", "is_alphabetic", "is_numeric", "is_alphanumeric", "is_uppercase",
+                                               "is_whitespace", "is_ascii_whitespace", "is_digit"):
+            cls = char_class(self, {"k": "mcall", "recv": {"k": "path", "path": "c"}, "method": meth, "args": []}, "c", fr)
+            return z3.InRe(recv.s, cls)
+        if isinstance(recv, StrZ) and meth == "to_digit":
+            code = z3.StrToCode(recv.s)
+            return Opt(z3.And(code >= 48, code <= 57), code - 48)
+        if isinstance(recv, (StrZ, str)) and meth in ("trim", "trim_start", "trim_end") and isinstance(recv, StrZ):
+            raise Unsupported("trim on a symbolic string")
+        if isinstance(recv, (StrZ,)) and meth == "split_once" and args:
+            sz = recv.s
+            d = to_strz(args[0])
+            i = z3.IndexOf(sz, d, 0)
+            return Opt(i >= 0, TupleV((StrZ(z3.SubString(sz, 0, i)), StrZ(z3.SubString(sz, i + z3.Length(d), z3.Length(sz) - i - z3.Length(d))))))
+        if isinstance(recv, VecV) and meth == "remove" and args and args[0] == 0:
+            # remove(0): drop the first present element
+            out, found = [], False
+            first = None
+            for g, v in recv.items:
+                isfirst = And(g, Not(found))
+                out.append((And(g, found), v))
+                first = v if first is None else merge(B(isfirst), v, first)
+                found = Or(found, g)
+            self.assign(e["recv"], VecV(tuple(out)), fr, guard)
+            return first
+        if isinstance(recv, VecV) and meth == "take" and args and isinstance(args[0], int):
+            out, rank = [], 0
+            for g, v in recv.items:
+                out.append((And(g, rank < args[0]), v))
+                rank = rank + (If(g, 1, 0) if is_sym(g) else (1 if g else 0))
+            return VecV(tuple(out))
+        if isinstance(recv, VecV) and meth == "join" and args and isinstance(args[0], str):
+            acc, any_ = "", False
+            for g, v in recv.items:
+                with_sep = text_concat(text_concat(acc, args[0]), v)
+                without = text_concat(acc, v)
+                nxt = merge(B(any_), with_sep, without) if is_sym(any_) else (with_sep if any_ else without)
+                acc = merge(B(g), nxt, acc) if is_sym(g) else (nxt if g else acc)
+                any_ = Or(any_, g)
+            return acc
+        if isinstance(recv, VecV) and meth == "contains" and args and isinstance(args[0], (int,)) is False and is_intterm(args[0]) and all(isinstance(v, int) for _, v in recv.items):
+            return Or(*[And(g, args[0] == v) for g, v in recv.items])
         if isinstance(recv, StrZ) or (isinstance(recv, str) and any(isinstance(a, StrZ) for a in args)):
             s = to_strz(recv)
             if meth in ("to_string", "clone", "as_str", "to_owned", "as_ref", "trim", "borrow", "into", "as_bytes", "chars"):
@@ -435,7 +561,7 @@ class StructMachine(Machine):
             if meth in ("to_lowercase", "to_ascii_lowercase"):
                 raise Unsupported("case conversion of a symbolic string")
             if meth in ("push_str", "push"):
-                self.assign(e["recv"], StrZ(z3.Concat(s, to_strz(args[0]))), fr, guard)
+                self.assign(e["recv"], text_concat(recv, args[0]), fr, guard)
                 return UNIT
             if meth in ("all", "any") and args and isinstance(args[0], Closure):
                 cl = args[0]
@@ -462,7 +588,7 @@ class StructMachine(Machine):
             if isinstance(recv, str) and isinstance(a0, str):
                 self.assign(e["recv"], recv + a0, fr, guard)
             else:
-                self.assign(e["recv"], StrZ(z3.Concat(to_strz(recv), to_strz(a0))), fr, guard)
+                self.assign(e["recv"], text_concat(recv, a0), fr, guard)
             return UNIT
         if isinstance(recv, str) and not any(isinstance(a, StrZ) for a in args):
             if meth in ("to_uppercase", "to_ascii_uppercase"):
@@ -878,3 +1004,199 @@ def to_json(prog, model, val, ty=None, meta=None):
     if isinstance(val, TupleV):
         return True, [to_json(prog, model, x)[1] for x in val.elems]
     raise Unsupported("cannot render %r as JSON" % (val,))
+
+
+# ----------------------------------------------------------------------------------------------
+# field-level text machinery: multi-line symbolic text, character classes, char iterators
+# ----------------------------------------------------------------------------------------------
+def structsym_lit(z):
+    """a z3 string expression as a structured value when it is a literal (so that its newlines are known)"""
+    if z3.is_string_value(z):
+        return _zstr(z)
+    return StrZ(z)
+
+
+class LineZ(StrZ):
+    """a z3 string known to contain no newline"""
+    __slots__ = ()
+
+
+TEXT_LMAX = 8
+
+
+class TextV(StrZ):
+    """a symbolic multi-line text in structured form: `count` lines (>= 1), line k is the z3 string `lines[k]`
+    (newline-free; lines at index >= count are ""). The joined z3 string `.s` is built on demand."""
+    __slots__ = ("lines", "count", "_joined")
+
+    def __init__(self, lines, count):
+        lines = list(lines) + [z3.StringVal("")] * (TEXT_LMAX - len(lines))
+        self.lines, self.count = lines[:TEXT_LMAX], count
+        self._joined = None
+
+    @property
+    def s(self):
+        if self._joined is None:
+            z = self.lines[0]
+            acc = self.lines[0]
+            for k in range(1, len(self.lines)):
+                acc = z3.Concat(acc, z3.StringVal("\n"), self.lines[k])
+                z = z3.If(self.count > k, acc, z)
+            self._joined = z
+        return self._joined
+
+    @s.setter
+    def s(self, v):
+        self._joined = v
+
+    def line_items(self):
+        """what Rust's str::lines() yields: no line for the empty text, a trailing empty line is dropped"""
+        out = []
+        for k, l in enumerate(self.lines):
+            last_empty = z3.And(self.count == k + 1, z3.Length(l) == 0)
+            out.append((z3.And(self.count > k, z3.Not(last_empty)), LineZ(l)))
+        return tuple(out)
+
+    @staticmethod
+    def of(x):
+        """structured form of a value, or None when its newline structure is unknown"""
+        if isinstance(x, TextV):
+            return x
+        if isinstance(x, LineZ):
+            return TextV([x.s], z3.IntVal(1))
+        if isinstance(x, ChronoStr):
+            return TextV([x.z()], z3.IntVal(1))
+        if isinstance(x, str):
+            parts = x.split("\n")
+            if len(parts) > TEXT_LMAX:
+                return None
+            return TextV([z3.StringVal(p) for p in parts], z3.IntVal(len(parts)))
+        return None
+
+    def concat(self, other):
+        """self ++ other (other: TextV): the last line of self is joined with the first line of other"""
+        L = TEXT_LMAX
+        ca, cb = self.count, other.count
+        sca = z3.simplify(ca) if is_sym(ca) else z3.IntVal(ca)
+        if z3.is_int_value(sca):
+            a_cnt = sca.as_long()
+            lines = []
+            for k in range(L):
+                if k < a_cnt - 1:
+                    lines.append(self.lines[k])
+                elif k == a_cnt - 1:
+                    lines.append(z3.Concat(self.lines[k], other.lines[0]))
+                else:
+                    idx = k - (a_cnt - 1)
+                    lines.append(other.lines[idx] if idx < L else z3.StringVal(""))
+            return TextV(lines, z3.simplify(sca + cb - 1))
+        lines = []
+        for k in range(L):
+            # k < ca-1: a[k];  k == ca-1: a[k] ++ b[0];  k > ca-1: b[k-(ca-1)]
+            expr = z3.StringVal("")
+            for a_cnt in range(L, 0, -1):     # case split on ca (1..L)
+                if k < a_cnt - 1:
+                    e = self.lines[k]
+                elif k == a_cnt - 1:
+                    e = z3.Concat(self.lines[k], other.lines[0])
+                else:
+                    idx = k - (a_cnt - 1)
+                    e = other.lines[idx] if idx < L else z3.StringVal("")
+                expr = z3.If(ca == a_cnt, e, expr)
+            lines.append(z3.simplify(expr))
+        return TextV(lines, z3.simplify(ca + cb - 1))
+
+    def text_eq(self, other):
+        return z3.And(self.count == other.count, *[z3.Or(self.count <= k, self.lines[k] == other.lines[k]) for k in range(TEXT_LMAX)])
+
+
+def text_concat(a, b):
+    """concatenation that keeps the line structure when both sides have one; otherwise a plain z3 string"""
+    ta, tb = TextV.of(a), TextV.of(b)
+    if ta is not None and tb is not None:
+        r = ta.concat(tb)
+        if isinstance(a, (LineZ, str)) and isinstance(b, (LineZ, str)) and not (isinstance(a, str) and "\n" in a) and not (isinstance(b, str) and "\n" in b):
+            return LineZ(r.lines[0])
+        return r
+    return StrZ(z3.Concat(to_strz(a), to_strz(b)))
+
+
+_merge_prev = interp.merge
+
+
+def _merge_text(c, a, b):
+    if is_sym(c) and (isinstance(a, TextV) or isinstance(b, TextV)):
+        ta, tb = TextV.of(a), TextV.of(b)
+        if ta is not None and tb is not None:
+            return TextV([z3.If(c, x, y) for x, y in zip(ta.lines, tb.lines)], z3.If(c, ta.count, tb.count))
+    if is_sym(c) and isinstance(a, (LineZ, str)) and isinstance(b, (LineZ, str)) and (isinstance(a, LineZ) or isinstance(b, LineZ)) \
+            and not (isinstance(a, str) and "\n" in a) and not (isinstance(b, str) and "\n" in b):
+        return LineZ(z3.If(c, to_strz(a), to_strz(b)))
+    return _merge_prev(c, a, b)
+
+
+interp.merge = _merge_text
+merge = _merge_text
+
+
+NO_NEWLINE = None
+
+
+def no_newline_re():
+    global NO_NEWLINE
+    if NO_NEWLINE is None:
+        NO_NEWLINE = z3.Star(z3.Union(z3.Range(" ", "~"), z3.Range(chr(0xA0), chr(0xFF)), z3.Re("\t")))
+    return NO_NEWLINE
+
+
+class CharsV:
+    """`s.chars()` / `s.bytes()` of a symbolic string (ASCII view: one char = one unit)"""
+    __slots__ = ("s", "start")
+
+    def __init__(self, s, start=0):
+        self.s, self.start = s, start
+
+
+def char_class(machine, body, param, fr):
+    """z3 regex (one character) for a closure body over the character `param`, or None"""
+    k = body["k"]
+    R = z3.Range
+    table = {"is_ascii_digit": R("0", "9"), "is_ascii_uppercase": R("A", "Z"), "is_ascii_lowercase": R("a", "z"),
+             "is_ascii_alphabetic": z3.Union(R("A", "Z"), R("a", "z")),
+             "is_ascii_alphanumeric": z3.Union(R("A", "Z"), R("a", "z"), R("0", "9")),
+             "is_ascii_whitespace": z3.Union(z3.Re(" "), z3.Re("\t"), z3.Re("\n"), z3.Re("\x0c"), z3.Re("\r")),
+             "is_ascii": R("\x00", "\x7f"), "is_ascii_punctuation": z3.Union(R("!", "/"), R(":", "@"), R("[", "`"), R("{", "~")),
+             "is_ascii_graphic": R("!", "~"), "is_ascii_control": z3.Union(R("\x00", "\x1f"), z3.Re("\x7f")),
+             "is_whitespace": z3.Union(z3.Re(" "), R("\t", "\r")), "is_alphabetic": z3.Union(R("A", "Z"), R("a", "z")),
+             "is_numeric": R("0", "9"), "is_alphanumeric": z3.Union(R("A", "Z"), R("a", "z"), R("0", "9")),
+             "is_uppercase": R("A", "Z"), "is_lowercase": R("a", "z"), "is_digit": R("0", "9")}
+    is_param = lambda e: (e["k"] == "path" and e["path"] == param) or (e["k"] in ("unary", "ref") and is_param(e["expr"]))
+    if k == "mcall" and is_param(body["recv"]) and body["method"] in table:
+        return table[body["method"]]
+    if k == "mcall" and body["method"] == "contains" and len(body["args"]) == 1 and is_param(body["args"][0]):
+        recv = machine.eval(body["recv"], fr, True)
+        if isinstance(recv, str):
+            return z3.Union(*[z3.Re(ch) for ch in recv]) if len(recv) > 1 else z3.Re(recv)
+        if isinstance(recv, VecV) and all(isinstance(v, str) for _, v in recv.items):
+            return z3.Union(*[z3.Re(v) for _, v in recv.items])
+        return None
+    if k == "binary" and body["op"] in ("||", "&&"):
+        a, b = char_class(machine, body["left"], param, fr), char_class(machine, body["right"], param, fr)
+        if a is None or b is None:
+            return None
+        return z3.Union(a, b) if body["op"] == "||" else z3.Intersect(a, b)
+    if k == "binary" and body["op"] in ("==", "!=") and (is_param(body["left"]) or is_param(body["right"])):
+        other = body["right"] if is_param(body["left"]) else body["left"]
+        if other["k"] == "lit" and other["lit"]["k"] in ("char", "byte"):
+            ch = other["lit"]["v"] if other["lit"]["k"] == "char" else chr(other["lit"]["v"])
+            r = z3.Re(ch)
+            return r if body["op"] == "==" else z3.Intersect(z3.Complement(r), z3.AllChar(z3.ReSort(z3.StringSort())))
+        return None
+    if k == "unary" and body["op"] == "!":
+        a = char_class(machine, body["expr"], param, fr)
+        return None if a is None else z3.Intersect(z3.Complement(a), z3.AllChar(z3.ReSort(z3.StringSort())))
+    if k == "macro" and body["name"] == "matches":
+        return None
+    if k == "block" and len(body["stmts"]) == 1 and body["stmts"][0]["k"] == "sexpr":
+        return char_class(machine, body["stmts"][0]["expr"], param, fr)
+    return None
